@@ -37,8 +37,9 @@ namespace LunarVerif.C06
 structure Cfg where
   size : Int    -- queue_size
   ttl  : Nat    -- ttl_seconds, in ms
-  qmax : Int    -- fixed-window quota: max
-  win  : Nat    -- fixed-window quota: window, in ms
+  qmax : Int    -- fixed-window quota (the one `quota_id` names): max
+  win  : Nat    -- ... window, in ms
+  anc  : List (Int × Nat) := []   -- its ancestors in the quota tree (parent first, root last): (max, window ms)
 deriving Repr
 
 inductive RState | enqueued | processing | processed
@@ -113,10 +114,15 @@ inductive Ev
   | panic                           -- negative WaitGroup counter
 deriving DecidableEq, Repr
 
-/-- Fixed-window quota state: stored window start (whole seconds, as `windowStart.Unix()`), count. -/
-structure Quota where
+/-- State of one fixed window: stored window start (whole seconds, as `windowStart.Unix()`), count. -/
+structure Win where
   winStart : Option Nat := none
   cnt      : Nat := 0
+deriving DecidableEq, Repr
+
+/-- State of the quota the processor is attached to and of its ancestors (parent first). -/
+structure Quota where
+  ws : List Win := []
 deriving DecidableEq, Repr
 
 structure St where
@@ -149,18 +155,38 @@ def St.enq (s : St) (i : Nat) : St :=
   { (s.upd i fun r => { r with firstAt := some ts, pushed := true, pushTs := if r.pushed then r.pushTs else ts }) with
       heap := ⟨i, (s.reqs i).prio, ts⟩ :: s.heap, seq := s.seq + 1 }
 
-/-- `Inc;Allowed(;Dec)` of a fixed-window quota at instant `now` (ms).
-`AtomicIncWindow`: window start defaults to now; restart when `now - start ≥ window`; refuse when
-`count + 1 > max` (nothing stored); otherwise store `start.Unix()` (whole seconds!) and the count. -/
-def quotaTry (cfg : Cfg) (q : Quota) (now : Nat) : Quota × Bool :=
-  let ws := match q.winStart with
+/-- One fixed window at instant `now` (ms), `AtomicIncWindow`: window start defaults to now; restart when
+`now - start ≥ window`; refuse when `count + 1 > max` (nothing stored); otherwise store
+`start.Unix()` (whole seconds!) and the count. -/
+def winTry (max : Int) (win : Nat) (w : Win) (now : Nat) : Win × Bool :=
+  let ws := match w.winStart with
     | some s => s * 1000
     | none => now
-  let restart := decide (cfg.win ≤ now - ws)
-  let cur := if restart then 0 else q.cnt
+  let restart := decide (win ≤ now - ws)
+  let cur := if restart then 0 else w.cnt
   let ws' := if restart then now else ws
-  if cfg.qmax < (cur : Int) + 1 then (q, false)
+  if max < (cur : Int) + 1 then (w, false)
   else ({ winStart := some (ws' / 1000), cnt := cur + 1 }, true)
+
+/-- `fixedWindow.incChain` along the quota tree, the attached quota first: each level counts the
+request if it has room; when an ancestor has no room, the levels below give their count back
+(`refund`; the window start they stored stays). -/
+def chainTry : List (Int × Nat) → List Win → Nat → List Win × Bool
+  | [], ws, _ => (ws, true)
+  | (m, wn) :: rest, ws, now =>
+    let x := ws.head?.getD {}
+    let xs := ws.tail
+    match winTry m wn x now with
+    | (_, false) => (x :: xs, false)
+    | (x', true) =>
+      match chainTry rest xs now with
+      | (xs', true) => (x' :: xs', true)
+      | (xs', false) => ({ x' with cnt := x'.cnt - 1 } :: xs', false)
+
+/-- `Inc;Allowed(;Dec)` of the attached quota at instant `now`: allowed iff every level has room. -/
+def quotaTry (cfg : Cfg) (q : Quota) (now : Nat) : Quota × Bool :=
+  let r := chainTry ((cfg.qmax, cfg.win) :: cfg.anc) q.ws now
+  (⟨r.1⟩, r.2)
 
 /-- `PriorityQueue.Less`. -/
 def hle (a b : HItem) : Bool :=
